@@ -268,6 +268,9 @@ where
             self.radio_mode = RadioMode::Standby;
         }
 
+        // Interrupt flags stay latched until the host clears them: drop what an
+        // earlier (failed or abandoned) operation may have left behind.
+        self.radio_kind.clear_irq_status().await?;
         tx_pkt_params.set_payload_length(buffer.len())?;
         self.radio_kind.set_packet_params(tx_pkt_params).await?;
         self.radio_kind.set_channel(mdltn_params.frequency_in_hz).await?;
@@ -339,6 +342,9 @@ where
             self.radio_kind.ensure_ready(self.radio_mode).await?;
             self.radio_kind.set_standby().await?;
             self.radio_kind.set_channel(frequency_in_hz).await?;
+            // a flag left over from an earlier reception must not be taken for
+            // an event of this one
+            self.radio_kind.clear_irq_status().await?;
             self.radio_kind.do_rx(listen_mode).await
         } else {
             Err(RadioError::InvalidRadioMode)
@@ -351,6 +357,9 @@ where
         if let RadioMode::Receive(listen_mode) = self.radio_mode {
             // an earlier duty cycle reception may have left the chip in its sleep phase
             self.radio_kind.ensure_ready(self.radio_mode).await?;
+            // a flag left over from an earlier reception must not be taken for
+            // an event of this one
+            self.radio_kind.clear_irq_status().await?;
             self.radio_kind.do_rx(listen_mode).await
         } else {
             Err(RadioError::InvalidRadioMode)
@@ -468,6 +477,9 @@ where
     pub async fn prepare_for_cad(&mut self, mdltn_params: &ModulationParams) -> Result<(), RadioError> {
         self.prepare_modem(mdltn_params.frequency_in_hz).await?;
 
+        // Interrupt flags stay latched until the host clears them: drop what an
+        // earlier (failed or abandoned) operation may have left behind.
+        self.radio_kind.clear_irq_status().await?;
         self.radio_kind.set_modulation_params(mdltn_params).await?;
         self.radio_kind.set_channel(mdltn_params.frequency_in_hz).await?;
         self.radio_mode = RadioMode::ChannelActivityDetection;
